@@ -89,6 +89,12 @@ class C12(Prop):
         if spec["end"] != "kill_root":
             out = hang_violations(res, pid)
         if out:
+            if self.inflight_failures(res):
+                # a tracked operation that was in flight when the tracker was SIGKILLed failed (allowed) - inside
+                # loky's executor internals, which are not exception-safe (finding F25): what hangs afterwards in
+                # that process tree is a consequence of that, and is labelled as such
+                for v in out:
+                    v["signature"] += "/after-inflight-tracker-failure"
             return out
         trackers = [p for p in k.procs.values() if p.role == "tracker"]
         kills = [e for e in res.obs.events if e["op"] == "kill_tracker" and e["phase"] == "ret"]
@@ -144,6 +150,31 @@ class C12(Prop):
                 if not w:
                     out.append(V(pid, "C12/restart-without-warning", "no 'died unexpectedly, relaunching' warning"))
         return out
+
+    def inflight_failures(self, res):
+        """tasks that failed with an OSError while the tracker was being killed (interval contains the kill)."""
+        k = res.kernel
+        ksteps = [f[6] for f in X.injected_kills(res) if k.procs[f[1]].role == "tracker" and f[2] == 9]
+        if not ksteps:
+            return []
+        bad = []
+        for fid, rec in res.obs.futures.items():
+            if not rec.get("submitted"):
+                continue
+            st, payload = fut_state(rec)
+            if st == "exc" and "OSError" in payload["mro"]:
+                spans = [(e["s0"], e["s1"]) for e in res.obs.exec_log if e["task"] == rec["task"]["id"]]
+                if any(s0 <= ks and (s1 is None or ks <= s1) for (s0, s1) in spans for ks in ksteps):
+                    bad.append(fid)
+        # a task still running on a worker whose process raised inside loky after the kill is covered by the
+        # thread / task error records of that process
+        for role, tname, msg, fn in res.sched.task_errors:
+            if "BrokenPipeError" in msg or "Errno 32" in msg:
+                bad.append(tname)
+        for name, tname, msg, fn in res.run.thread_excs:
+            if "BrokenPipeError" in msg or "Errno 32" in msg or tname == "BrokenPipeError":
+                bad.append(name)
+        return bad
 
     def check_crash(self, res, tkills):
         """tracker SIGKILLed by the fault engine: tracked operations (semaphore creation at any level of the tree)
